@@ -22,6 +22,7 @@ import (
 	"google.golang.org/grpc/status"
 	"google.golang.org/protobuf/encoding/protojson"
 	"google.golang.org/protobuf/proto"
+	"google.golang.org/protobuf/types/known/timestamppb"
 
 	"go.6river.tech/mmmbbb/actions"
 	"go.6river.tech/mmmbbb/defaults"
@@ -29,6 +30,7 @@ import (
 	"go.6river.tech/mmmbbb/internal"
 	"go.6river.tech/mmmbbb/ent/enttest"
 	"go.6river.tech/mmmbbb/filter"
+	"go.6river.tech/mmmbbb/grpc/pubsubpb"
 	"go.6river.tech/mmmbbb/internal/sqltypes"
 )
 
@@ -566,6 +568,12 @@ func (v *vCtx) grpcOp(ctx context.Context, op map[string]any, res map[string]any
 		b, _ := json.Marshal(op["request"])
 		if err := (protojson.UnmarshalOptions{DiscardUnknown: true}).Unmarshal(b, req.Interface().(proto.Message)); err != nil {
 			v.t.Fatalf("bad request json: %v", err)
+		}
+	}
+	if mt, ok := op["seek_time_model"]; ok {
+		// a seek time given on the model's clock: translate it to the replay's clock like every stored timestamp
+		if sr, ok := req.Interface().(*pubsubpb.SeekRequest); ok {
+			sr.Target = &pubsubpb.SeekRequest_Time{Time: timestamppb.New(v.toReal(mt))}
 		}
 	}
 	cctx := ctx
